@@ -275,8 +275,16 @@ class Loader:
             if found is None:
                 continue
             if isinstance(found, ast.Assign):
+                # a class attribute is evaluated once, when the class body runs: all instances share the object
+                cache = getattr(eng, 'module_value_cache', None)
+                key = ('classattr', id(found))
+                if cache is not None and key in cache:
+                    return cache[key]
                 fr = Frame('<class %s>' % c.name, c.mod, {})
-                return eng.eval(found.value, fr)
+                v = eng.eval(found.value, fr)
+                if cache is not None and isinstance(v, (list, dict, set)) or hasattr(v, 'default_factory'):
+                    cache[key] = v
+                return v
             decos = [ast.unparse(d) for d in found.decorator_list]
             kind = 'method'
             for d in decos:
